@@ -44,6 +44,20 @@ LEVEL_NOTE = ('Kernel level: the real recursion limit and marshal depth limit ar
               'timestamp that decodes to an OverflowError value.')
 
 FUEL = 200
+# mirrors single_kinds / bulk_kinds of Model/Values.v (the model decides how an action is represented, not the implementation)
+SINGLE_KINDS = ('AddRecord', 'UpdateRecord')
+BULK_KINDS = ('BulkAddRecord', 'BulkUpdateRecord', 'ReplaceTableData', 'TableData')
+
+
+def regenerate(ctx):
+  """coq/gen/Actions_gen.v: the type dispatch of actions.convert_action_values, from the current source (fail closed)."""
+  import os
+  from harness import act2v
+  try:
+    text = act2v.translate(core.GRIST)
+  except act2v.Untranslatable as e:
+    raise core.TieBroken('actions.py / action_obj.py: %s' % e)
+  core.write_if_changed(os.path.join(core.COQ, 'gen', 'Actions_gen.v'), text)
 
 
 # ---- values ---------------------------------------------------------------------------------------------
@@ -300,12 +314,11 @@ def correspond(ctx):
 
 
 def action_lit(b, a):
-  import actions
   name = type(a).__name__
-  if isinstance(a, (actions.AddRecord, actions.UpdateRecord)):
+  if name in SINGLE_KINDS:
     cols = '[%s]' % '; '.join('(%s, %s)' % (b.val(k), b.val(x)) for k, x in a.columns.items())
     return '(ARecord %s %s %s %s)' % (pv.slit(name), b.val(a.table_id), b.val(a.row_id), cols)
-  if isinstance(a, (actions.BulkAddRecord, actions.BulkUpdateRecord, actions.ReplaceTableData, actions.TableData)):
+  if name in BULK_KINDS:
     cols = '[%s]' % '; '.join('(%s, %s)' % (b.val(k), b.vals(x)) for k, x in a.columns.items())
     return '(ABulk %s %s %s %s)' % (pv.slit(name), b.val(a.table_id), b.val(a.row_ids), cols)
   return '(AOther %s %s)' % (pv.slit(name), b.vals(list(a)))
@@ -320,6 +333,9 @@ def make_bundle(rng, vals):
     lambda: actions.AddRecord('T', 3, {'A': pick()}),
     lambda: actions.BulkUpdateRecord('T', [1, 2], {'A': [pick(), pick()]}),
     lambda: actions.BulkAddRecord('T', [], {}),
+    lambda: actions.BulkAddRecord('T', [4, 5], {'A': [pick(), pick()], 'B': [pick(), None]}),
+    lambda: actions.ReplaceTableData('T', [1, 2], {'A': [pick(), pick()], 'B': [pick(), pick()]}),
+    lambda: actions.ReplaceTableData('T', [], {'A': []}),
     lambda: actions.TableData('T', [1, 2, 3], {'A': [pick(), pick(), pick()], 'manualSort': [1.0, 2.0, 3.0]}),
     lambda: actions.RemoveRecord('T', 3),
     lambda: actions.BulkRemoveRecord('T', [1, 2]),
@@ -465,7 +481,9 @@ def search(ctx):
       expr = None
     ctx.violation(kind, what, {'expr': expr, 'kind': kind})
   ctx.log('value search done')
+  action_kinds(ctx)
   engine_replies(ctx)
+  engine_replace_table_data(ctx)
   ctx.log('engine replies done')
 
 
@@ -511,8 +529,75 @@ def engine_replies(ctx):
     e.apply_user_actions([useractions.from_repr(['RemoveColumn', 'Src', col])])
 
 
+NONPRIMITIVE = ['("a", "b")', '[1, 2]', 'objtypes.RecordList([3], sort_by="A")', 'datetime.date(2024, 9, 2)',
+                'datetime.datetime(2024, 9, 2, 3, 8, 21)', 'mk_error("ValueError", "boom", None)', 'objtypes.AltText("x")',
+                'record("T", 5)', '{"a": 1}', '2 ** 40', 'b"\\xff"', 'objtypes._pending_sentinel', 'set([1])', 'float("nan")', '"plain"', 'None']
+
+
+def make_action(kind, v):
+  import actions
+  cls = getattr(actions, kind)
+  if kind in SINGLE_KINDS:
+    return cls('T', 7, {'A': v, 'B': 1})
+  return cls('T', [7, 8], {'A': [v, None], 'B': [1, v]})
+
+
+def check_action(kind, v):
+  """get_action_repr / action_from_repr of a data action of this kind: every emitted cell value is in encoded form
+  (it is what encode_object gives, marshal takes it, decoding and re-encoding gives it back). Returns a description or None."""
+  import actions
+  import objtypes
+  a = make_action(kind, v)
+  try:
+    rep = actions.get_action_repr(a)
+  except BaseException as ex:
+    return 'get_action_repr(%s) raised %r' % (kind, ex)
+  if rep[0] != kind or len(rep) != 4 or not isinstance(rep[3], dict):
+    return 'get_action_repr(%s) has an unexpected shape' % kind
+  cells = [rep[3]['A']] if kind in SINGLE_KINDS else list(rep[3]['A']) + list(rep[3]['B'])
+  want = objtypes.encode_object(v)
+  if not any(deep_same(c, want) for c in cells):
+    return '%s: the value %s leaves get_action_repr as %r, not in its encoded form %r' % (kind, pv.to_expr(v)[:60], cells[0], want)
+  for c in cells:
+    try:
+      marshal.loads(marshal.dumps(c, 2))
+    except Exception as ex:
+      return '%s: marshal refuses the emitted cell value %r (%s)' % (kind, c, ex)
+    if not deep_same(objtypes.encode_object(objtypes.decode_object(c)), c) and not contains_D(c):
+      return '%s: the emitted cell value %r does not round-trip through decode/encode' % (kind, c)
+  try:
+    back = actions.get_action_repr(actions.action_from_repr(rep))
+  except BaseException as ex:
+    return 'action_from_repr(%s) raised %r' % (kind, ex)
+  if not deep_same(back, rep) and not contains_D(rep):
+    return '%s: action_from_repr then get_action_repr changes the action' % kind
+  return None
+
+
+def action_kinds(ctx):
+  """Every data action kind with every kind of non-primitive value; and no data action class outside the model's lists."""
+  import actions
+  data_classes = sorted(n for n, c in actions.action_types.items() if 'columns' in c._fields and ('row_id' in c._fields or 'row_ids' in c._fields))
+  if data_classes != sorted(SINGLE_KINDS + BULK_KINDS):
+    ctx.broken('monitor:action classes with row ids and `columns` differ from the model', repr(data_classes))
+  for kind in SINGLE_KINDS + BULK_KINDS:
+    for expr in NONPRIMITIVE:
+      v = pv.from_expr(expr)
+      desc = check_action(kind, v)
+      ctx.count(('action', kind, expr), nontrivial=True, kind='action:' + kind)
+      if desc:
+        ctx.bump('oracle:action-values-not-encoded')
+        ctx.violation('action-values-not-encoded', desc, {'action': kind, 'expr': expr, 'kind': 'action-values-not-encoded'})
+        break
+
+
 def replay(ctx, w):
   core.setup_impl_path()
+  if w.get('action'):
+    try:
+      return check_action(w['action'], pv.from_expr(w['expr']))
+    except Exception:
+      return None
   if w.get('expr'):
     try:
       v = pv.from_expr(w['expr'])
@@ -523,3 +608,59 @@ def replay(ctx, w):
       return None
     return r[1]
   return None
+
+
+def engine_replace_table_data(ctx):
+  """Bundles that contain ReplaceTableData / BulkAddRecord on a table whose raw cells are not primitives (ChoiceList tuples,
+  RefList lists, an error left in a data column): every cell value of every data action of the reply is in encoded form,
+  and the reply marshals."""
+  import engine
+  import objtypes
+  import useractions
+  e = engine.Engine()
+  e.load_empty()
+  run = lambda ua: e.apply_user_actions([useractions.from_repr(ua)])
+  run(['InitNewDoc'])
+  run(['AddTable', 'Tags', [{'id': 'N', 'type': 'Text', 'isFormula': False}]])
+  run(['BulkAddRecord', 'Tags', [None, None], {'N': ['p', 'q']}])
+  run(['AddTable', 'T2', [{'id': 'C', 'type': 'ChoiceList', 'isFormula': False}, {'id': 'R', 'type': 'RefList:Tags', 'isFormula': False},
+                          {'id': 'E', 'type': 'Any', 'isFormula': True, 'formula': '1/0'}, {'id': 'X', 'type': 'Text', 'isFormula': False}]])
+  run(['BulkAddRecord', 'T2', [None, None], {'C': [['L', 'a', 'b'], None], 'R': [['L', 1, 2], None], 'X': ['x', 'y']}])
+  run(['ModifyColumn', 'T2', 'E', {'isFormula': False}])
+  steps = [['ReplaceTableData', 'T2', [1, 2, 3], {'C': [['L', 'c'], None, ['L', 'd', 'e']], 'R': [None, ['L', 2], ['L', 1]], 'X': ['1', '2', '3']}],
+           ['DuplicateTable', 'T2', 'T2copy', True],
+           ['BulkUpdateRecord', 'T2', [1, 2], {'C': [['L', 'z'], ['L']], 'R': [['L', 1], None]}],
+           ['RemoveTable', 'T2copy']]
+  for ua in steps:
+    try:
+      ag = run(ua)
+      reply = dict(e.acl_split(ag).to_json_obj())
+    except Exception as ex:
+      ctx.violation('raises', 'engine raised %r for %r' % (ex, ua[:2]), {'user_action': ua, 'kind': 'raises'})
+      continue
+    kinds = set()
+    bad = None
+    for part in ('stored', 'undo', 'calc'):
+      for _env, rep in reply[part]:
+        if rep[0] in SINGLE_KINDS + BULK_KINDS:
+          kinds.add(rep[0])
+          cols = rep[3]
+          for col, vals in cols.items():
+            for x in (vals if rep[0] in BULK_KINDS else [vals]):
+              ok = True
+              try:
+                marshal.dumps(x, 2)
+                ok = deep_same(objtypes.encode_object(objtypes.decode_object(x)), x)
+              except Exception:
+                ok = False
+              if not ok and bad is None:
+                bad = '%s of %s carries the cell value %r in column %s, which is not in encoded form' % (part, rep[0], x, col)
+    ctx.count(('engine-rtd', ua[0]), nontrivial=bool(kinds), kind='engine-data-actions:' + '+'.join(sorted(kinds)))
+    if bad is None:
+      try:
+        marshal.loads(marshal.dumps((1, reply), 2))
+      except Exception as ex:
+        bad = 'the reply to %s cannot be marshalled (%s)' % (ua[0], ex)
+    if bad:
+      ctx.bump('oracle:action-values-not-encoded')
+      ctx.violation('action-values-not-encoded', bad + ' (user action %s)' % ua[0], {'user_action': ua[:2], 'kind': 'action-values-not-encoded'})
